@@ -16,6 +16,7 @@ pub fn run(args: &[String]) {
             "peaks" => crate::peaks::run_peaks(&line),
             "poisson" => crate::peaks::run_poisson(&line),
             "spec" => crate::spec::run_case(&line),
+            "formula" => crate::formula::run_case(&line),
             "conv" => crate::gens::run_conv(&line),
             "brain" => crate::gens::run_brain(&line),
             "brainhist" => crate::gens::run_brainhist(&line),
